@@ -47,5 +47,21 @@ pub trait ChecksumGenerator {
         ensures r == self.checksum_sem(*creator, code_id);
 }
 
+// the repository's default generators (src/addresses.rs, src/checksums.rs): only their existence is needed here
+pub struct SimpleAddressGenerator;
+impl AddressGenerator for SimpleAddressGenerator {
+    uninterp spec fn addr_sem(&self, code_id: u64, instance_id: u64) -> AnyResult<Addr>;
+    uninterp spec fn predictable_sem(&self, code_id: u64, instance_id: u64, checksum: Seq<u8>, creator: CanonicalAddr, salt: Seq<u8>) -> AnyResult<Addr>;
+    #[verifier::external_body]
+    fn contract_address(&self, api: &dyn Api, storage: &mut dyn Storage, code_id: u64, instance_id: u64) -> (r: AnyResult<Addr>) { unimplemented!() }
+    #[verifier::external_body]
+    fn predictable_contract_address(&self, api: &dyn Api, storage: &mut dyn Storage, code_id: u64, instance_id: u64, checksum: &[u8], creator: &CanonicalAddr, salt: &[u8]) -> (r: AnyResult<Addr>) { unimplemented!() }
+}
+pub struct SimpleChecksumGenerator;
+impl ChecksumGenerator for SimpleChecksumGenerator {
+    uninterp spec fn checksum_sem(&self, creator: Addr, code_id: u64) -> Checksum;
+    #[verifier::external_body]
+    fn checksum(&self, creator: &Addr, code_id: u64) -> (r: Checksum) { unimplemented!() }
+}
 impl Default for Binary { #[verifier::external_body] fn default() -> (r: Self) ensures r.b@.len() == 0 { Binary { b: Vec::new() } } }
 pub open spec fn empty_binary() -> Binary { Binary { b: vec_of(Seq::<u8>::empty()) } }
